@@ -84,7 +84,8 @@ PROPS = {
                 dict(module="MC_SM2Sig", cfg="MC_SM2Sig_q_inf", expect="violation", about="negative: the pinned commit's handling of [s]G + [t]P = O (x1 read as 0) must be refuted")],
         stages=[dict(suite="sm2ver", trace="TraceSM2", plan=dict(module="PlanSM2Sig", cfg_quick="PlanSM2Sig_q", cfg_thorough="PlanSM2Sig_t"),
                      required_classes={"both": ["sm2.verify/untouched", "sm2.verify/tampered64", "sm2.verify/len<64", "sm2.verify/len>64",
-                                                "sm2.verify_digest/digest.small-s", "sm2.verify_digest/digest.s+n", "sm2.verify_digest/digest.r+n", "sm2.verify_digest/digest.t=0", "sm2.verify_digest/digest.sum-is-infinity", "sm2.verify_digest/digest.near-miss"]})],
+                                                "sm2.verify_digest/digest.small-s", "sm2.verify_digest/digest.s+n", "sm2.verify_digest/digest.r+n", "sm2.verify_digest/digest.t=0", "sm2.verify_digest/digest.sum-is-infinity", "sm2.verify_digest/digest.near-miss",
+                                                "sm2.verify_digest/digest.s=0", "sm2.verify_digest/digest.r=0", "sm2.verify_digest/digest.s=n", "sm2.verify_digest/digest.r=n"]})],
         assumptions=["SM2.tla transcribes GB/T 32918.2", "BigNat Java override (cross-checked by MC_BigNat)"],
     ),
     "C05": dict(
@@ -95,7 +96,7 @@ PROPS = {
                 dict(module="MC_SM2Enc", cfg="MC_SM2Enc_q_none", tier="quick", about="toy curve F_11, symbols 0..11: every key, nonce, message, order, encoding round-trips; code-shaped decryptor = declarative decryptor on EVERY symbol string of ciphertext length"),
                 dict(module="MC_SM2Enc", cfg="MC_SM2Enc_none", tier="thorough", timeout=900, about="same with symbols 0..15 (5.5 M states)")],
         stages=[dict(suite="sm2enc", trace="TraceSM2", plan=dict(module="PlanSM2Enc", cfg_quick="PlanSM2Enc_q", cfg_thorough="PlanSM2Enc_t"),
-                     required_classes={"both": ["sm2.encrypt/c1c3c2.uncomp.klen%32=0", "sm2.encrypt/c1c2c3.comp.short", "sm2.decrypt/own-ciphertext", "sm2.decrypt/spec-made", "sm2.decrypt/weak-zero", "sm2.kdf/klen%32=0"]})],
+                     required_classes={"both": ["sm2.encrypt/c1c3c2.uncomp.klen%32=0", "sm2.encrypt/c1c2c3.comp.short", "sm2.decrypt/own-ciphertext", "sm2.decrypt/spec-made", "sm2.decrypt/weak-zero", "sm2.kdf/klen%32=0", "codec.asn1_dec/asn1.dec.interop", "codec.asn1_dec/asn1.dec.interop-short-coord"]})],
         assumptions=["SM2.tla transcribes GB/T 32918.4 (anchored by the GM/T 0003.5 Annex ciphertext as ASSUME)"],
     ),
     "C06": dict(
@@ -112,7 +113,7 @@ PROPS = {
                 dict(module="MC_SM2Enc", cfg="MC_SM2Enc_q_hash", expect="violation", about="negative: decryption without the C3 comparison must be refuted")],
         stages=[dict(suite="sm2dec", trace="TraceSM2", plan=dict(module="PlanSM2Enc", cfg_quick="PlanSM2Enc_q", cfg_thorough="PlanSM2Enc_t"),
                      required_classes={"both": ["sm2.decrypt/untouched", "sm2.decrypt/flip-c1", "sm2.decrypt/flip-body", "sm2.decrypt/truncated",
-                                                "sm2.decrypt/offcurve", "sm2.decrypt/x+p", "sm2.decrypt/nonresidue", "sm2.decrypt/valid-small-x", "codec.asn1_dec/asn1.dec.offcurve", "codec.asn1_dec/asn1.dec.valid-small-x"]})],
+                                                "sm2.decrypt/offcurve", "sm2.decrypt/x+p", "sm2.decrypt/nonresidue", "sm2.decrypt/valid-small-x", "codec.asn1_dec/asn1.dec.offcurve", "codec.asn1_dec/asn1.dec.valid-small-x", "sm2.decrypt/fold-c3"]})],
         assumptions=["SM2.tla transcribes GB/T 32918.4 and the SEC1 point decoding rules"],
     ),
     "C15": dict(
@@ -164,8 +165,8 @@ PROPS = {
                 dict(module="MC_JacobianImpl", cfg="MC_JacobianImpl_mulq", tier="thorough", timeout=1500, about="4-bit window scalar_mul = [k]P for every representation x every 8-bit scalar (F_11 curve, n = 7: scalars up to 36n)"),
                 dict(module="MC_JacobianImpl", cfg="MC_JacobianImpl_mulneg", expect="violation", about="negative: window multiplication over the unfixed addition must be refuted"),
                 dict(module="MC_Mont", about="register-level Montgomery mul / add / sub with R = 2^7: every prime in (64,128) x every operand pair")],
-        stages=[dict(suite="sm2ec", trace="TraceSM2",
-                     required_classes={"both": ["ec.add/add.P=Q", "ec.add/add.P=Q.diffZ", "ec.add/add.P=-Q", "ec.add/add.O+Q", "ec.add/add.generic", "ec.smul/smul.k=n", "ec.smul/smul.k>n",
+        stages=[dict(suite="sm2ec", trace="TraceSM2", plan=dict(module="PlanField", cfg_quick="PlanField", cfg_thorough="PlanField_t"),
+                     required_classes={"both": ["fp.op/fp.mul.planned-window", "fn.op/fn.mul.planned-window", "ec.add/add.P=Q", "ec.add/add.P=Q.diffZ", "ec.add/add.P=-Q", "ec.add/add.O+Q", "ec.add/add.generic", "ec.smul/smul.k=n", "ec.smul/smul.k>n",
                                                 "ec.smul/smul.k=0", "ec.gmul/gmul.k<n", "ec.valid/valid.off", "ec.table/table.entry", "ec.table/table.row-base",
                                                 "fp.op/fp.mul.near-modulus", "fp.op/fp.add.near-2^256-m", "fn.op/fn.add.near-modulus"]})],
         assumptions=["Weierstrass.tla is the affine group law; verdicts are on denotations (X/Z^2, Y/Z^3 of the Montgomery-decoded coordinates)", "BigNat Java override (cross-checked by MC_BigNat)"],
@@ -203,7 +204,7 @@ PROPS = {
                 dict(module="MC_SM9Proto", cfg="MC_SM9Proto_enc_nocurve", expect="violation", about="negative: decryption without the on-curve check of C1 must be refuted")],
         stages=[dict(suite="sm9enc", trace="TraceSM9", plan=dict(module="PlanSM9", cfg_quick="PlanSM9_q", cfg_thorough="PlanSM9_t"), timeout=3400,
                      required_classes={"both": ["sm9.encrypt/encrypt.short", "sm9.encrypt/encrypt.len%32=0", "sm9.decrypt/decrypt.none", "sm9.decrypt/decrypt.spec-made", "sm9.decrypt/decrypt.flip-c2",
-                                                "sm9.decrypt/decrypt.flip-c1", "sm9.decrypt/decrypt.truncated", "sm9.decrypt/decrypt.c1-offcurve", "sm9.decrypt/decrypt.c1-zero-forged", "sm9.decrypt/decrypt.c1-offcurve-consistent"]})],
+                                                "sm9.decrypt/decrypt.flip-c1", "sm9.decrypt/decrypt.truncated", "sm9.decrypt/decrypt.c1-offcurve", "sm9.decrypt/decrypt.c1-zero-forged", "sm9.decrypt/decrypt.c1-offcurve-consistent", "sm9.decrypt/decrypt.fold-c3"]})],
         assumptions=["SM9.tla transcribes GM/T 0044.4 with MAC(K2,Z) = SM3(Z||K2) (Annex ciphertext as ASSUME)"],
     ),
     "C17": dict(
@@ -221,7 +222,7 @@ PROPS = {
         rule="events = pairings evaluated by the library: exact 384-byte comparison with the textbook pairing, bilinearity identities judged against G0^(ab), GT powers; distinct = distinct inputs; non-trivial = all",
         models=[dict(module="AnchorSM9q", anchor=True, workers=1, tier="quick", about="SM9.tla reproduces the GM/T 0044.5 Annex extraction / signature / ciphertext values via the derived evaluator; G0 has order N"), dict(module="AnchorSM9", anchor=True, workers=1, tier="thorough", timeout=900, about="all GM/T 0044.5 Annex values incl. the definitional pairings, decryption and key exchange; G0Const = Pairing(P1,P2)")],
         stages=[dict(suite="sm9pair", trace="TraceSM9", timeout=3400,
-                     required_classes={"both": ["sm9.pairing/pairing.exact.generators", "sm9.pairing/pairing.exact.near-order", "sm9.pairing/pairing.exact.random", "sm9.pairing/pairing.exact.annex-g",
+                     required_classes={"both": ["sm9.pairing/pairing.exact.generators", "sm9.pairing/pairing.exact.near-order", "sm9.pairing/pairing.exact.random", "sm9.pairing/pairing.exact.annex-g", "sm9.pairing/pairing.exact.identity-g1",
                                                 "sm9.pair_ident/pairing.bilinear.random", "sm9.pair_ident/pairing.bilinear.near-order", "gt.pow/gt.pow.e=N-2", "gt.pow/gt.pow.sparse"]})],
         assumptions=["BN.tla: textbook R-ate pairing over Fp[w]/(w^12+2), final exponent by definition; anchored by the Annex value of e(P1, Ppub-s) through the signature example"],
     ),
